@@ -114,8 +114,18 @@ PROPS = {
              "king_pos, is_check and checkers follow",
              [], "Lean 4 theorems: table exactness (C15) + ray symmetry decided over all squares + set-membership characterisation of the stored piece sets",
              "§6 C16"),
-    "C17": P("exploration", "none yet", ["WalkerInv", "styled_list_eq"],
-             "differential: walker op strings, uci list rebuild, 18 renderings vs Spec.render / replay", "§6 C17"),
+    "C17": P("proof", "over the C13 chain invariant: runSteps_spec / walk_spec (for ANY list of next / prev / to-start / to-end steps the "
+             "walker never panics, leaves the stack untouched, and every observation is exactly (the position that preceded move i, move i) "
+             "for the indices the logical cursor passes, in order); setBoardPos_spec, next_spec, prev_spec; uciList_eq (the text is the "
+             "moves' UCI spellings joined by single spaces), split_join + fmtUci_good (tokenisation), uciList_replay (replaying the text "
+             "from the start position rebuilds the same start, the same stack incl. undo records and the same board, without error; "
+             "equal to the chain with its outcome cleared); styled_spec (exact output: moves in game order, ` N.` before white moves "
+             "with N = position's move number − start's + first number, status token), styled_status (status = fmtStatus of the stored outcome)",
+             ["'rebuilds an equal chain' holds with the outcome cleared (the text carries no outcome; PartialEq compares it) — stated so",
+              "styled_spec assumes the start move number ≤ 65535 (u16 in the code; the model stores a Nat)",
+              "that the SAN styles never fail to print a recorded move is C09: differential"],
+             "Lean 4 theorems by induction over step lists and over the game; differential on generated chain scripts (walk / uci / rebuild / styled, custom numbers up to 2^32) ties the model to the code",
+             "§6 C17"),
     "C18": P("exploration", "none yet", ["legal_mirrorV on Spec"],
              "metamorphic on the implementation (A = B after mirroring) + model", "§6 C18"),
     "C19": P("proof", "PARTIAL: rookIndex_lt / bishopIndex_lt (the magic lookup index is inside the table for every square and all 2^64 "
